@@ -5,8 +5,9 @@ NL = "P.node_list"
 
 def treewf(p, props="C03", prefix="TreeWF"):
     """the representation invariant of a partition, one labelled clause per conjunct"""
-    names = ["shape", "root", "depths", "nodup", "leaves", "kids", "up", "noalias_layer", "noalias_kids",
-             "layers_distinct", "geom", "uniq_index"]
+    # (derivable, hence not listed: a node occurs once per layer <= uniq_index; layer lists pairwise distinct <= depths+shape;
+    #  child lists of distinct nodes distinct <= every child's parent pointer)
+    names = ["shape", "root", "depths", "leaves", "kids", "up", "noalias_layer", "geom", "uniq_index"]
     return [("%s.%s" % (prefix, n), "TW_%s(%s)" % (n, p), props) for n in names]
 
 
@@ -27,7 +28,7 @@ def register(reg):
 
     both = "for h in range(P.depth + 1) for k in range(len(P.node_list[h]))"
     pred("TW_shape", "P", "P.depth >= 0 and len(P.node_list) == P.depth + 1 "
-                          "and all(len(P.node_list[h]) >= 1 for h in range(P.depth + 1))")
+                          "and all(len(P.node_list[h]) >= 1 and P.node_list[h][0].depth == h for h in range(P.depth + 1))")
     pred("TW_root", "P", "len(P.node_list[0]) == 1 and P.node_list[0][0] is P.root and P.root.parent is None "
                          "and P.root.index == 1 and P.root.domain is P.domain")
     pred("TW_depths", "P", "all(P.node_list[h][k].depth == h %s)" % both)
@@ -36,10 +37,11 @@ def register(reg):
     pred("TW_leaves", "P", "all(P.node_list[P.depth][k].children is None for k in range(len(P.node_list[P.depth])))")
     pred("Kids", "P, n, h",
          "h < P.depth and len(n.children) == Arity(P) and all(n.children[j].parent is n and n.children[j].depth == h + 1 "
-         "and n.children[j] in P.node_list[h + 1] and n.children[j].index == Arity(P) * (n.index - 1) + j + 1 "
+         "and n.children[j] in P.node_list[n.children[j].depth] and n.children[j].index == kidx(Arity(P), n.index, j) "
          "for j in range(len(n.children)))")
     pred("TW_kids", "P", "all(implies(P.node_list[h][k].children is not None, Kids(P, P.node_list[h][k], h)) %s)" % both)
-    pred("TW_up", "P", "all(P.node_list[h][k].parent is not None and P.node_list[h][k].parent in P.node_list[h - 1] "
+    pred("TW_up", "P", "all(P.node_list[h][k].parent is not None and P.node_list[h][k].parent.depth == h - 1 "
+                       "and P.node_list[h][k].parent in P.node_list[P.node_list[h][k].parent.depth] "
                        "and P.node_list[h][k].parent.children is not None "
                        "and P.node_list[h][k] in P.node_list[h][k].parent.children "
                        "for h in range(1, P.depth + 1) for k in range(len(P.node_list[h])))")
@@ -133,10 +135,11 @@ def register(reg):
     # ------------------------------------------------------------------ KaryPartition / RandomKaryPartition
     kary_inv = [
         ("len", "len(new_nodes) == i and fresh(new_nodes)"),
-        ("kids-fresh", "all(fresh(new_nodes[j]) for j in range(i))"),
+        ("kids-fresh", "all(fresh(new_nodes[j]) and new_nodes[j] in new_nodes for j in range(i))"),
         ("kids-links", "all(new_nodes[j].parent is parent and new_nodes[j].depth == parent.depth + 1 "
                        "and new_nodes[j].index == self.K * parent.index - (self.K - j - 1) "
                        "and new_nodes[j].children is None and NodeInit(new_nodes[j]) for j in range(i))"),
+        ("kids-kidx", "all(new_nodes[j].index == kidx(self.K, parent.index, j) for j in range(i))"),
         ("kids-lists", "all(DomainFresh(new_nodes[j]) and len(new_nodes[j].domain) == len(parent_domain) "
                        "and all(len(new_nodes[j].domain[d]) == 2 for d in range(len(parent_domain))) for j in range(i))"),
         ("kids-centre", "all(IsCentre(new_nodes[j].c_point, new_nodes[j].domain) for j in range(i))"),
@@ -167,4 +170,49 @@ def register(reg):
              ("kids-chain", "all(new_nodes[j].domain[dim][0] <= new_nodes[j].domain[dim][1] for j in range(i)) "
                             "and implies(i > 0, new_nodes[0].domain[dim][0] == selected_dim[0]) "
                             "and all(new_nodes[j].domain[dim][1] == new_nodes[j + 1].domain[dim][0] for j in range(i - 1))"),
+         ])
+
+    # ------------------------------------------------------------------ DimensionBinaryPartition
+    fn("DimensionBinaryPartition.make_children", implements="Partition.make_children", props="C01 C02 C03 C14 C16",
+       params=MC_PARAMS,
+       locals={"children_list": "list[ref:$N]", "combination_list": "list[list[list[real]]]", "domain": "list[list[real]]"},
+       ensures=[
+           ("halves", "all(HalfOf(parent.children[i], parent, p) for i in range(len(parent.children)) "
+                      "for p in range(len(parent.domain)))", "C02 C16"),
+           KFRESH,
+       ])
+    pred("HalfOf", "c, parent, p",
+         "(c.domain[p][0] == parent.domain[p][0] and c.domain[p][1] == (parent.domain[p][0] + parent.domain[p][1]) / 2) or "
+         "(c.domain[p][0] == (parent.domain[p][0] + parent.domain[p][1]) / 2 and c.domain[p][1] == parent.domain[p][1])")
+    pred("CombOK", "cl, dom, q",
+         "fresh(cl[q]) and len(cl[q]) == 2 and fresh(cl[q][0]) and fresh(cl[q][1]) and len(cl[q][0]) == 2 and len(cl[q][1]) == 2 "
+         "and cl[q][0][0] == dom[q][0] and cl[q][0][1] == (dom[q][0] + dom[q][1]) / 2 "
+         "and cl[q][1][0] == (dom[q][0] + dom[q][1]) / 2 and cl[q][1][1] == dom[q][1]")
+    loop("DimensionBinaryPartition.make_children", 0, props="C02 C03", var="dim", modifies=["list(combination_list)"],
+         invariants=[
+             ("len", "len(combination_list) == dim and fresh(combination_list)"),
+             ("combs", "all(CombOK(combination_list, parent_domain, q) for q in range(dim))"),
+         ])
+    loop("DimensionBinaryPartition.make_children", 1, props="C02 C03", var="i", modifies=["list(children_list)"],
+         invariants=[
+             ("len", "len(children_list) == i and fresh(children_list)"),
+             ("combs", "len(combination_list) == len(parent_domain) and "
+                       "all(CombOK(combination_list, parent_domain, q) for q in range(len(parent_domain)))"),
+             ("kids-fresh", "all(fresh(children_list[j]) and children_list[j] in children_list for j in range(i))"),
+             ("kids-links", "all(children_list[j].parent is parent and children_list[j].depth == parent.depth + 1 "
+                            "and children_list[j].index == kidx(num_children, parent.index, j) "
+                            "and children_list[j].children is None and NodeInit(children_list[j]) for j in range(i))"),
+             ("kids-lists", "all(fresh(children_list[j].domain) and fresh(children_list[j].c_point) "
+                            "and len(children_list[j].domain) == len(parent_domain) for j in range(i))"),
+             ("kids-halves", "all(children_list[j].domain[p] is combination_list[p][0] or "
+                             "children_list[j].domain[p] is combination_list[p][1] "
+                             "for j in range(i) for p in range(len(parent_domain)))"),
+             ("kids-centre", "all(IsCentre(children_list[j].c_point, children_list[j].domain) for j in range(i))"),
+         ])
+    loop("DimensionBinaryPartition.make_children", 2, props="C02 C03", var="dim", modifies=["list(domain)"],
+         invariants=[
+             ("ind", "0 <= ind and ind < pow2(len(parent_domain) - dim)"),
+             ("len", "len(domain) == dim and fresh(domain)"),
+             ("picked", "all(domain[q] is combination_list[len(parent_domain) - q - 1][0] or "
+                        "domain[q] is combination_list[len(parent_domain) - q - 1][1] for q in range(dim))"),
          ])
